@@ -2,6 +2,7 @@ package jschema
 
 import (
 	stdBytes "bytes"
+	stdJson "encoding/json"
 
 	"github.com/jsightapi/jsight-schema-core/bytes"
 	"github.com/jsightapi/jsight-schema-core/errs"
@@ -91,7 +92,13 @@ func (b *exampleBuilder) buildExampleForObjectNode(node *ischema.ObjectNode) ([]
 
 func (b *exampleBuilder) buildObjectKey(k ischema.ObjectNodeKey) ([]byte, error) {
 	if !k.IsShortcut {
-		return []byte(k.Key), nil
+		// The key is kept decoded, so it has to be encoded again: it may contain
+		// quotes, backslashes or control characters.
+		quoted, err := stdJson.Marshal(k.Key)
+		if err != nil {
+			return nil, err
+		}
+		return quoted[1 : len(quoted)-1], nil
 	}
 
 	typ, ok := b.types[k.Key]
